@@ -24,6 +24,13 @@ package gateway
 //@ trusted func (github.com/hydraide/hydraide/app/core/zeus.Zeus).GetSafeops(z) (s)
 //@   ensures s != nil
 
+// Time window of shift-matching / patch-expired selection (property C11): a record is "in the
+// time window" exactly when its timestamp lies in the half-open interval [fromNano, toNano),
+// the same window findTimeRangeBounds is proved to return for ordered reads (C07).
+//@ func inTimeRange(ts, fromNano, toNano) (r)
+//@   property C11
+//@   ensures[window_is_half_open] r <==> (ts >= fromNano && ts < toNano)
+
 // Wire conversion (property C30): the response reports an expiry exactly when the record has
 // one (ExpirationTime != 0, the engine-wide meaning of "has an expiry").
 //@ func treasureToKeyValuePair(treasureInterface, t)
